@@ -127,6 +127,9 @@ def run(ck, prefixes, *, ns_ops, sim, probes_n, probe_sample, cover=None):
                 jobs.append(("history", f"sim{i}", steps, ck.seed * 1000 + i))
             for name, steps in DIRECTED.items():
                 jobs.append(("history", name, steps, 1))
+                # ... and once more with every namespace command naming its (first) mailbox with the one
+                # leading "/" the server tolerates: the same mailbox, the same step of the model
+                jobs.append(("history", name + "/", [dict(st, alias=True) for st in steps], 1))
         if cover:
             # one implementation test per accepted transition of the model's quotient graph
             view, ops = cover
